@@ -6,8 +6,11 @@ pub mod c01;
 pub mod c02;
 pub mod model;
 pub mod c04;
+pub mod c05;
+pub mod c06;
 pub mod c07;
 pub mod c08;
+pub mod c09;
 pub mod c20;
 
 use crate::core::Stats;
@@ -25,8 +28,11 @@ pub fn monitors() -> Vec<Monitor> {
         Monitor { id: "C01", case: c01::case, exhaustive: None },
         Monitor { id: "C02", case: c02::case, exhaustive: None },
         Monitor { id: "C04", case: c04::case, exhaustive: Some(c04::exhaustive) },
+        Monitor { id: "C05", case: c05::case, exhaustive: None },
+        Monitor { id: "C06", case: c06::case, exhaustive: None },
         Monitor { id: "C07", case: c07::case, exhaustive: None },
         Monitor { id: "C08", case: c08::case, exhaustive: None },
+        Monitor { id: "C09", case: c09::case, exhaustive: None },
         Monitor { id: "C20", case: c20::case, exhaustive: Some(c20::exhaustive) },
     ]
 }
